@@ -1517,7 +1517,7 @@ def c09_streams(ctx):
         chars = sorted(chars)
         cs = [Case(pat, f, "is_match", c * wrap) for c in chars]
         gs.append(Group(cs, {"features": {"negated_class"} if cls[1] else set(), "cls": cls, "flags": f, "chars": chars, "text": txt}))
-    return gs
+    return gs + c09_hyphen_groups(ctx)
 
 
 HYPHEN_CLASSES = [
@@ -1525,6 +1525,10 @@ HYPHEN_CLASSES = [
     ("[--[a]]", ("cls", False, [("c", "-")], ("cls", False, [("c", "a")], None))),
     ("[a-z--[m]]", ("cls", False, [("r", "a", "z"), ("c", "-")], ("cls", False, [("c", "m")], None))),
     ("[^a--[b]]", ("cls", True, [("c", "a"), ("c", "-")], ("cls", False, [("c", "b")], None))),
+    ("[\\p{Nd}\\P{Nd}]", ("cls", False, [("e", "p{Nd}"), ("e", "P{Nd}")], None)),
+    ("[^\\p{L}\\P{L}]", ("cls", True, [("e", "p{L}"), ("e", "P{L}")], None)),
+    ("[\\p{L}-[\\P{L}]]", ("cls", False, [("e", "p{L}")], ("cls", False, [("e", "P{L}")], None))),
+    ("[\\P{Lu}a-[\\p{Lu}]]", ("cls", False, [("e", "P{Lu}"), ("c", "a")], ("cls", False, [("e", "p{Lu}")], None))),
     ("[a-]", ("cls", False, [("c", "a"), ("c", "-")], None)),
     ("[-a]", ("cls", False, [("c", "-"), ("c", "a")], None)),
     ("[a-c-]", ("cls", False, [("r", "a", "c"), ("c", "-")], None)),
@@ -1538,12 +1542,12 @@ HYPHEN_CLASSES = [
 
 def c09_hyphen_groups(ctx):
     gs = []
-    chars = sorted(set("ab-+,mz^[]c\\,.`") | {chr(ord(c) + d) for c in "a-+z" for d in (-1, 1)})
+    chars = sorted(set("ab-+,mz^[]c\\,.`A5 ") | {chr(ord(c) + d) for c in "a-+z" for d in (-1, 1)})
     for txt, cls in HYPHEN_CLASSES:
         for f in ("", "i"):
             cs = [Case("^" + txt + "$", f, "is_match", ch) for ch in chars]
             gs.append(Group(cs, {"features": {"negated_class"} if cls[1] else set(), "cls": cls, "flags": f, "chars": chars, "text": txt}))
-    return gs + c09_hyphen_groups(ctx)
+    return gs
 
 
 def c09_oracle(ctx, g):
